@@ -149,7 +149,7 @@ func checkC09(w *Workload, emit func(k int, mode, class string)) *Outcome {
 var c09Fixtures = []string{"tiny", "flat24", "nest"}
 
 func TestC09(t *testing.T) {
-	cfg := wlCfg{fixtures: fixturesFromEnv(c09Fixtures), maxRecs: envInt("VERIF_MAXRECS", 10), gen: vt.DefaultGen}
+	cfg := wlCfg{fixtures: fixturesFromEnv(c09Fixtures), maxRecs: envInt("VERIF_MAXRECS", 10), gen: vt.DefaultGen, noPatterns: true}
 	cfg.gen.MaxList = 3
 	cfg.gen.LongStr = 40000 // now and then a page body beyond 32 KiB
 	rapid.Check(t, func(t *rapid.T) {
